@@ -15,7 +15,7 @@ func directedCluster(name string, amev int64, mons []vnet.Monitor) (*vnet.Cluste
 	cfg := vnet.Config{Seed: 4242, Profile: name, N: 4, BaseHeight: 3, Heights: 1, AMEV: amev, TPB: time.Second,
 		Epoch: time.Date(2031, 5, 1, 0, 0, 0, 0, time.UTC).UnixNano(), MaxSteps: 1000}
 	cfg.GenesisTs = uint64(cfg.Epoch) - uint64(cfg.TPB)
-	cfg.K.SlowNode = -1
+	cfg.K.SlowNode, cfg.K.ResetDelayNode = -1, -1
 	// height 4, view 0: primary index 0
 	cfg.Roles = []vnet.Role{vnet.Byzantine, vnet.Honest, vnet.Honest, vnet.Honest}
 	c := vnet.NewCluster(cfg, mons...)
